@@ -35,6 +35,13 @@ impl Scenario for IdentSc {
         p.set("scheme", ((index / 2) % 3) as i64);
         p.set("msg_class", pick_len_class(&mut x, false) as i64);
         p.steps.push(Step::new(class, &[index as i64]));
+        if class == "agg-positions-wide" {
+            // the identity entry at the positions where a narrow position counter wraps: index 255 / 256 (8 bits) in every
+            // tier, 65 535 / 65 536 (16 bits) in the thorough tier only (half a minute per list)
+            let wide: &[i64] = if tier == Tier::Thorough { &[254, 255, 256, 257, 65534, 65535, 65536] } else { &[254, 255, 256, 257] };
+            p.set("n", wide[(index / 4 % wide.len() as u64) as usize]);
+            p.set("scheme", if (index / 2) % 2 == 0 { 2 } else { 1 });
+        }
         if class == "agg-positions" {
             // list length and position of the identity entry
             let n = if tier == Tier::Thorough { 2 + (index / 6 % 63) as i64 } else { *x.pick(&[2i64, 3, 4, 5, 8, 16, 33, 64]) };
@@ -47,6 +54,7 @@ impl Scenario for IdentSc {
         match plan.class.as_str() {
             "family" => run_family(plan, env.cur, rec),
             "agg-positions" => run_agg_positions(plan, env.cur, rec),
+            "agg-positions-wide" => run_agg_positions_wide(plan, env.cur, rec),
             _ => {}
         }
     }
@@ -299,6 +307,42 @@ fn rec_call(rec: &mut Rec, lib: &dyn Lib, g: Grp, op: Op, args: &[&[u8]]) -> Out
 }
 
 /// a valid aggregate with an identity-key entry inserted at each list position, n in 2..=64
+/// One signer's pair (pk, m) listed n times (allowed outside the Basic scheme; the aggregate is n times its signature)
+/// and the identity key appended with that same message / its own message: the identity entry sits at INDEX n.
+fn run_agg_positions_wide(plan: &Plan, lib: &dyn Lib, rec: &mut Rec) {
+    let g = grp_of(plan.get("g"));
+    let scheme = plan.get("scheme").clamp(1, 2) as u8;
+    let n = plan.get("n").clamp(2, 70_000) as usize;
+    let pl = g.pk_len();
+    let id_pk = if pl == 48 { Pt::id1() } else { Pt::id2() }.to_bytes();
+    let Some(p) = party(rec, lib, g, 4, plan.seed) else { return };
+    let m = b"one pair, many times".to_vec();
+    let Some(sig) = rec.call(lib, g, Op::Sign, &[&p.sk, &[scheme], &m]).first().map(|v| v.to_vec()) else { return };
+    let Some(sp) = Pt::from_bytes(&sig[1..]) else { return };
+    let agg = refimpl::layout::tagged(scheme, &sp.mul(&refimpl::scalar_from_u64(n as u64)).to_bytes());
+    for kind in 0..2 {
+        let idm = if kind == 0 { m.clone() } else { b"identity entry with its own message".to_vec() };
+        let mut a: Vec<&[u8]> = Vec::with_capacity(2 * n + 3);
+        a.push(&agg);
+        for _ in 0..n {
+            a.push(&p.pk);
+            a.push(&m);
+        }
+        // sanity of the construction: the list without the identity entry verifies
+        if kind == 0 && n <= 300 {
+            let ok = rec.call(lib, g, Op::AggVerify, &a);
+            rec.expect("C04", "wide-list-construction", ok.is_ok(), || format!("wide n={} scheme={} | the honest list of n equal pairs does not verify: {:?}", n, scheme_name(scheme), ok));
+        }
+        a.push(&id_pk);
+        a.push(&idm);
+        let out = rec.call(lib, g, Op::AggVerify, &a);
+        rec.case(&[4, g as u64, scheme as u64, n as u64, kind as u64, 78], true);
+        rec.fault("byz-identity");
+        rec.expect("C04", "identity-or-zero-never-accepted", !success(&out), || format!("AggregateSignature::verify identity-key-at-index-{} kind={} scheme={} g={} | a valid aggregate list with an identity public key appended as entry {} was accepted", n, kind, scheme_name(scheme), g.name(), n + 1));
+    }
+    rec.sample(|| format!("scheme={} g={} identity key at index {} of a list of equal pairs", scheme_name(scheme), g.name(), n));
+}
+
 fn run_agg_positions(plan: &Plan, lib: &dyn Lib, rec: &mut Rec) {
     let g = grp_of(plan.get("g"));
     let scheme = plan.get("scheme") as u8;
